@@ -12,7 +12,7 @@ PLANS = {"quick": [(1, "SUPER_", 2000, 12), (1, "CHR", 500, 12), (1, "Scaffold_"
 
 
 PV_CAP = {"quick": 1500, "thorough": 10000}
-SIM = {"quick": "num=150", "thorough": None}      # quick tier: seeded random edit scripts (TLC simulation) instead of the exhaustive graph
+SIM = {"quick": "num=150", "thorough": "num=800"}      # seeded random edit scripts (TLC simulation); the exhaustive tagged graphs are C09's thorough tier
 
 
 def export(run, haps, prefix, n, maxchr, k, firsthap="HAP1"):
